@@ -274,3 +274,16 @@ CHECKS = {
         "min_nontrivial_quick": 2,
     },
 }
+
+# later extensions of generators and oracles (kept apart so that each addition reads as one sentence)
+RULE_ADDENDA = {
+    "C03": "Client-write cases also go through Client.SendOnly and use Packet literals whose Header.Length is stale (0, 5, n+20, 65536): what is written must follow the body.",
+    "C04": "Every input is also decoded into reused receivers (a fully populated value, and the decode of the valid packet the input was derived from): refusal must not depend on the receiver and every decoded field must come from this input.",
+    "C05": "After an injected deadline expiry in the middle of a packet the connection must be closed; one that goes back to reading is the verdict stall-not-an-error.",
+    "C11": "Command arguments include values that merely end in the <cr>/<CR> line-ending marker.",
+    "C12": "One request in three is sent on the session id of the request before it with the next client sequence number (the updates of a task), naming any user.",
+    "C16": "The real-watcher sub-test also replaces the file atomically (rename over the path) and then edits it in place; if nothing is published the verdict is taken from the process' inotify watch list (/proc/self/fdinfo), not from the clock.",
+    "C17": "One scripted packet in three makes its handler register a continuation, so that a session is still open when the connection ends.",
+}
+for _p, _t in RULE_ADDENDA.items():
+    CHECKS[_p]["rule"] += " Also: " + _t
